@@ -201,6 +201,29 @@ impl Game {
             bail!("Black king not found");
         };
 
+        // Refuse boards no game can reach: the move buffer, the state stack
+        // and the score type are sized for real chess material
+        for player in [Player::White, Player::Black] {
+            let count = |piece_type| {
+                board
+                    .iter()
+                    .filter(|place| *place == &Some(Piece { piece_type, owner: player }))
+                    .count()
+            };
+            let promoted = count(PieceType::Queen).saturating_sub(1)
+                + count(PieceType::Rook).saturating_sub(2)
+                + count(PieceType::Bishop).saturating_sub(2)
+                + count(PieceType::Knight).saturating_sub(2);
+            if count(PieceType::King) != 1 || count(PieceType::Pawn) + promoted > 8 {
+                bail!("Impossible material");
+            }
+        }
+        if board[..8].iter().chain(&board[56..]).any(|place| {
+            place.is_some_and(|piece| piece.piece_type == PieceType::Pawn)
+        }) {
+            bail!("Pawn on the first or last rank");
+        }
+
         let mut game = Self {
             board,
             move_stack: Vec::with_capacity(1000),
